@@ -397,8 +397,10 @@ func (vf *VersionedFetcher) merge(c cid.Cid) error {
 		}
 	}
 
+	// The block is merged into the transient version store only: the head and block stores consulted
+	// and updated while processing it must be the transient ones, not those of the request's transaction.
 	err = coreblock.ProcessBlock(
-		vf.ctx,
+		datastore.CtxSetTxn(vf.ctx, vf.store),
 		mcrdt,
 		block,
 		cidlink.Link{
